@@ -733,7 +733,7 @@ func runC20(cfg *runCfg) error {
 	nRand, maxSteps := 350, 26
 	switch cfg.tier {
 	case "thorough":
-		nRand, maxSteps = 6000, 40
+		nRand, maxSteps = 5000, 40
 	case "search":
 		nRand, maxSteps = 1500, 34
 	}
